@@ -439,6 +439,24 @@ def _ctor(case):
                     fails.append({"check": "ctor-alias", "what": "Signal(%d,%d) shares memory with its arguments" % (nt, nv),
                                   "tags": {"nt": nt, "nv": nv}})
                 nontriv.append("ctor|%d|%d|%s" % (nt, nv, how))
+    # "only adding the integer 0, as sum does, returns the signal itself": other falsy left operands are not the integer 0
+    from pyrex.signals import EmptySignal, FunctionSignal
+    tt = np.array([k * DT for k in range(4)])
+    for mk in (lambda: Signal(tt, [1.0, 2.0, 3.0, 4.0]), lambda: EmptySignal(tt), lambda: FunctionSignal(tt, lambda x: np.asarray(x) * 0 + 1.0)):
+        for left in (None, "", [], (), {}):
+            sig = mk()
+            n += 1
+            try:
+                res = left + sig
+            except Exception:
+                continue
+            if res is sig:
+                fails.append({"check": "radd-not-zero", "what": "%r + %s returned the signal itself (only the integer 0 does)"
+                                                                % (left, type(sig).__name__), "tags": {"left": repr(left)}})
+        n += 1
+        sig = mk()
+        if (0 + sig) is not sig:
+            fails.append({"check": "radd-zero", "what": "0 + %s did not return the signal itself" % type(sig).__name__, "tags": {}})
     return {"n": n, "nontrivial": nontriv, "fails": fails, "states": n, "transitions": n,
             "sample": {"ctor": "Signal(times[0..4], values[0..4]) as arrays and lists"}}
 
